@@ -335,6 +335,7 @@ pub fn main(args: &[String]) -> i32 {
     let o = Opts::parse(args);
     match o.get("mode").unwrap_or("dfs") {
         "dfs" => dfs_main(&o),
+        "storm" => storm_main(&o),
         _ => free_main(&o),
     }
 }
@@ -518,6 +519,74 @@ fn free_main(o: &Opts) -> i32 {
     out.flush().unwrap();
     let _ = std::fs::remove_file(&path);
     println!("{}", json!({"rounds": rounds, "events": events}));
+    0
+}
+
+/// C18: several flush() callers run concurrently with a writer whose record batches fail
+/// transiently (three failing attempts, then the device is healthy again: the failed batch is
+/// scrubbed and released by the worker while the callers are in every phase of flush).  Only
+/// termination (watchdog) and the lock-ownership events are of interest.
+fn storm_main(o: &Opts) -> i32 {
+    use std::sync::atomic::{AtomicBool, AtomicI64, Ordering};
+    let seed: u64 = o.num("seed", 1);
+    let rounds: usize = o.num("rounds", 40);
+    let flushers: usize = o.num("flushers", 3);
+    let fails: i64 = o.num("fails", 3);
+    obs::set_cpus(o.num("cpus", 2));
+    let path = format!("{}/storm_{}_{}.feox", o.get("dir").unwrap_or("/dev/shm"), std::process::id(), seed);
+    crate::util::watchdog::start(o.num("watchdog", 30));
+    let cfg = json!({"pers": true, "ttl": true, "cache": o.num("cache", 0u32) == 1, "lim": -1, "blocks": o.num("blocks", 200u64)});
+    feoxdb::verif::force_sync(true);
+    let store = Arc::new(build_store(&cfg, &path));
+    static ARMED: AtomicI64 = AtomicI64::new(0);
+    feoxdb::verif::set_fault_fn(Some(Box::new(move |_idx, kind, sector, _len| {
+        if kind == "write" && sector >= 16 && ARMED.load(Ordering::SeqCst) > 0 && ARMED.fetch_sub(1, Ordering::SeqCst) > 0 { 1 } else { 0 }
+    })));
+    obs::install();
+    let stop = Arc::new(AtomicBool::new(false));
+    let mut hs = Vec::new();
+    for _ in 0..flushers {
+        let (st, sp) = (store.clone(), stop.clone());
+        hs.push(std::thread::spawn(move || {
+            let mut n = 0u64;
+            while !sp.load(Ordering::SeqCst) { let _ = st.flush(); n += 1; }
+            n
+        }));
+    }
+    let mut rng = StdRng::seed_from_u64(seed);
+    let (mut failed, mut okf) = (0u64, 0u64);
+    for r in 0..rounds {
+        crate::util::watchdog::beat(&format!("storm round {r}"));
+        ARMED.store(fails, Ordering::SeqCst);
+        let key = format!("storm{:03}", r);   // fresh key: the armed window holds record writes only (no markers)
+        let _ = store.insert(key.as_bytes(), &vec![b'v'; 100 + rng.random_range(0..6000)]);
+        match store.flush() { Ok(_) => okf += 1, Err(_) => failed += 1 }
+        ARMED.store(0, Ordering::SeqCst);
+        if r % 5 == 4 { let _ = store.delete(key.as_bytes()); let _ = store.flush(); }
+    }
+    crate::util::watchdog::beat("storm stop");
+    stop.store(true, Ordering::SeqCst);
+    let mut calls = 0;
+    for h in hs { calls += h.join().unwrap_or(0); }
+    crate::util::watchdog::beat("storm final flush");
+    let _ = store.flush();
+    feoxdb::verif::set_fault_fn(None);
+    obs::uninstall();
+    let raw = obs::take();
+    if let Some(lp) = o.get("lockout") {
+        let mut f = std::fs::OpenOptions::new().create(true).append(true).open(lp).expect("lockout");
+        for e in &raw {
+            if e.kind == "lk" {
+                writeln!(f, "{}", json!({"tid": e.tid, "lock": String::from_utf8_lossy(&e.key), "acq": e.a, "mode": e.b})).unwrap();
+            }
+        }
+    }
+    crate::util::watchdog::beat("storm drop");
+    match Arc::try_unwrap(store) { Ok(s) => drop(s), Err(_) => {} }
+    feoxdb::verif::force_sync(false);
+    let _ = std::fs::remove_file(&path);
+    if let Some(out) = o.get("out") { let _ = std::fs::write(out, ""); }
+    println!("{}", json!({"rounds": rounds, "flush_err": failed, "flush_ok": okf, "concurrent_flush_calls": calls}));
     0
 }
 
